@@ -21,7 +21,7 @@ with Python's `re`, per text.
 """
 import re
 
-from harness.core import Check, canon, run_driver, use_repo
+from harness.core import Check, Rng, canon, run_driver, use_repo
 from harness import gen_grammar as G
 from harness import peg
 from harness.txutil import outcome
@@ -235,6 +235,36 @@ def sentences(g, rng, n_derived, n_mutated):
 
 
 NULLABLE_RE = {r"q?"}
+
+# `ws='...'` values that mix escape sequences with characters given literally (visit_rule_params keeps both since
+# "fix: a ws rule modifier written with an escape sequence no longer drops the characters given literally");
+# no quote and no literal backslash (it would start an escape sequence)
+MIXED_WS = [" \\t,", "\\n\t", "\\t ;", "\\r\\n~", ",\\n ", "\t\\n", " \\n\\t\r", "\\t.", ".\\n\\n", "\\r:", "~ \\t\\n"]
+
+
+def mix_ws(g, rng):
+    """Rewrite about half of the `ws=` modifiers (and give a few rules without modifiers one) as a mixed spelling;
+    returns the grammar and the literal characters that became whitespace somewhere."""
+    rules, lits = [], set()
+    for rule in g["rules"]:
+        p = rule.get("params") or {}
+        if ("ws" in p and rng.chance(0.5)) or (not p and rng.chance(0.05)):
+            v = rng.choice(MIXED_WS)
+            rule = dict(rule, params=dict(p, ws=v))
+            lits.update(c for c in re.sub(r"\\[nrt]| ", "", v) if c not in "\\")
+        rules.append(rule)
+    return dict(g, rules=rules), sorted(lits)
+
+
+def sprinkle(texts, lits, rng):
+    """one more text: a derived text with one of the literal whitespace characters put into a gap"""
+    cands = [t for t in texts if " " in t]
+    if not lits or not cands:
+        return texts
+    t = rng.choice(cands)
+    gaps = [i for i, c in enumerate(t) if c == " "]
+    i = rng.choice(gaps)
+    return texts + [t[:i + 1] + rng.choice(lits) + t[i + 1:]]
 
 
 def unord_elems(e):
@@ -658,6 +688,10 @@ class Prop(Check):
             keep = 4 if tier == "quick" else 6
             if style == "broken":
                 g = break_grammar(g, r)
+            # last, so that the rest of the case is what it was before this pass existed (the texts do not depend on
+            # the `ws=` values): mixed spellings of `ws=` values + one text with a literal whitespace character in a gap
+            g, lits = mix_ws(g, r.fork("mixws"))
+            texts = sprinkle(texts, lits, r.fork("sprinkle"))
             yield {"gram": g, "cfg": cfg, "texts": texts, "keep": keep, "style": style}
 
     def impl(self, case):
@@ -695,6 +729,25 @@ class Prop(Check):
         sel = sorted(acc[:na] + rej[-(k - na):] if k - na > 0 else acc[:na])
         res["texts"] = [case["texts"][i] for i in sel]
         res["loads"] = [allloads[i] for i in sel]
+        # C22 (gap extension leaves the model unchanged, theorem Peg.C22_model_unchanged on `Tx.load`): one gap extension
+        # for up to two accepted texts -- a character of the metamodel's whitespace set next to a blank / at an end
+        gaps, done = [], 0
+        wsset = case["cfg"].get("ws") if case["cfg"].get("ws") is not None else "\t\n\r "
+        for t, o in zip(res["texts"], res["loads"]):
+            g1 = None
+            if "ok" in o and done < 2 and wsset:
+                rr = Rng("gap:" + t)
+                sites = [i for i in range(len(t) + 1) if (i < len(t) and t[i] == " ") or (i > 0 and t[i - 1] == " ")] or [0, len(t)]
+                p = rr.choice(sites)
+                ins = rr.choice(list(wsset)) * rr.choice([1, 1, 2])
+                t2 = t[:p] + ins + t[p:]
+                o2 = cpu_timeout(lambda t2=t2: load(mm, t2))
+                if o2.get("other") == "Timeout":
+                    o2 = cpu_timeout(lambda t2=t2: load(mm, t2), 25)
+                g1 = {"p": p, "ins": ins, "text": t2, "load": o2}
+                done += 1
+            gaps.append(g1)
+        res["gaps"] = gaps
         return res
 
     def model_req(self, case, obs):
@@ -705,10 +758,14 @@ class Prop(Check):
         texts = []
         if "compiled" in obs:
             nn = len(obs["compiled"]["table"]["nodes"]) + 12
-            for t in obs["texts"]:
+            for t, gp in zip(obs["texts"], obs.get("gaps") or [None] * len(obs["texts"])):
                 rows, groups, g1 = tok_rows(toks, t)
-                texts.append({"input": t, "toks": rows, "groups": groups, "g1": g1,
-                              "fuel": min(30000, 80 + 8 * (len(t) + 2) * nn)})
+                d = {"input": t, "toks": rows, "groups": groups, "g1": g1}
+                if gp is not None:
+                    rows2, _groups2, g12 = tok_rows(toks, gp["text"])
+                    d["gap"] = {"p": gp["p"], "ins": gp["ins"], "toks": rows2, "g1": g12}
+                d["fuel"] = min(30000, 80 + 8 * (len(t) + (len(gp["ins"]) if gp else 0) + 2) * nn)
+                texts.append(d)
         nullable = [i for i, (k, t) in enumerate(toks)
                     if k == "re" and (tok_regex(k, t).match("") is not None or any(0 in x["toks"][i] for x in texts))]
         return {"op": "case", "gram": gram, "cfg": lean_cfg(case["cfg"]), "texts": texts, "nullable": nullable}
@@ -725,6 +782,20 @@ class Prop(Check):
             d = same_outcome(real, m["mirror"])
             if d:
                 return f"load {t!r}: {d}"
+        for t, gp, m in zip(obs["texts"], obs.get("gaps") or [], out["loads"]):
+            if gp is None:
+                continue
+            e = m.get("gap")
+            if e is None:
+                return f"gap extension of {t!r}: no answer from the model"
+            if e["input"] != gp["text"]:
+                return f"extendGap differs from the harness insertion: {e['input']!r} vs {gp['text']!r}"
+            d = same_outcome(gp["load"], e["mirror"])
+            if d:
+                return f"load {gp['text']!r} (gap extension of {t!r}): {d}"
+            if e["ok"] and e["g1ok"] and not e["same"]:
+                return (f"gap extension {gp['text']!r} of {t!r}: hypotheses of C22_model_unchanged hold but the mirror's "
+                        f"outcomes differ")
         return None
 
     def compare_compile(self, case, obs, out):
@@ -846,7 +917,9 @@ class Prop(Check):
     def extra_evidence(self, cases, obs, outs):
         ev = {"grammars": len(cases), "grammar_errors": 0, "doc_fragment_grammars": 0, "pinned_walk_would_differ": 0, "rule_named_sep": 0,
               "texts": 0, "accepted_texts": 0, "accepted_with_2plus_objects": 0, "sem_decided_texts": 0,
-              "sem_decided_texts_in_doc_fragment": 0, "pinned_c03_would_differ_texts": 0, "unsupported": 0}
+              "sem_decided_texts_in_doc_fragment": 0, "pinned_c03_would_differ_texts": 0, "unsupported": 0,
+              "gap_extensions": 0, "gap_extensions_with_C22_hypotheses": 0, "gap_extensions_same_model": 0,
+              "gap_extensions_use_regexp_group": 0}
         for c, o, out in zip(cases, obs, outs):
             if "grammar_error" in o:
                 ev["grammar_errors"] += 1
@@ -868,6 +941,12 @@ class Prop(Check):
                 if "skip" not in m["sem"] and m["sem"].get("err") != "fuel":
                     ev["sem_decided_texts"] += 1
                     ev["sem_decided_texts_in_doc_fragment"] += bool(out.get("doc"))
+                e = m.get("gap")
+                if e is not None:
+                    ev["gap_extensions"] += 1
+                    ev["gap_extensions_with_C22_hypotheses"] += bool(e["ok"] and e["g1ok"])
+                    ev["gap_extensions_same_model"] += bool(e["same"])
+                    ev["gap_extensions_use_regexp_group"] += bool(e["ok"] and e["g1ok"] and c["cfg"].get("use_regexp_group"))
         return ev
 
     def sample_view(self, case, obs):
